@@ -261,9 +261,13 @@ fn session_with(rt: &tokio::runtime::Runtime, rng: &mut Rng, start: (u64, u64), 
                 Some(resp)
             })));
         }
-        let r = poll_chunks(SITE, tx, if with_stats { Some(stats_tx) } else { drop(stats_tx); None }, stop_rx).await;
+        let r = guarded_async(poll_chunks(SITE, tx, if with_stats { Some(stats_tx) } else { drop(stats_tx); None }, stop_rx)).await;
         let _ = drain();
-        log.lock().expect("log").push(json!({"ev": "return", "ok": r.is_ok(), "err": r.as_ref().err().map(|e| format!("{e:?}")).unwrap_or_default()}));
+        match r {
+            Ok(r) => log.lock().expect("log").push(json!({"ev": "return", "ok": r.is_ok(), "err": r.as_ref().err().map(|e| format!("{e:?}")).unwrap_or_default()})),
+            // no reading of Poll.tla has a panic: the event is rejected wherever it stands
+            Err(msg) => log.lock().expect("log").push(json!({"ev": "panic", "message": msg})),
+        }
         sim.set_handler(None);
     });
     let out = log.lock().expect("log").clone();
@@ -456,10 +460,12 @@ fn scripted_session(rt: &tokio::runtime::Runtime, start: (u64, u64), full: u64, 
                 None
             })));
         }
-        let r = poll_chunks(SITE, tx, None, stop_rx).await;
+        let r = guarded_async(poll_chunks(SITE, tx, None, stop_rx)).await;
         drain();
-        outcome = (r.is_ok(), r.err().map(|e| format!("{e:?}")).unwrap_or_default());
-        log.lock().expect("log").push(json!({"ev": "return", "ok": outcome.0, "err": outcome.1.clone()}));
+        match r {
+            Ok(r) => { outcome = (r.is_ok(), r.err().map(|e| format!("{e:?}")).unwrap_or_default()); log.lock().expect("log").push(json!({"ev": "return", "ok": outcome.0, "err": outcome.1.clone()})); }
+            Err(msg) => { outcome = (false, format!("PANIC {msg}")); log.lock().expect("log").push(json!({"ev": "panic", "message": msg})); }
+        }
         sim.set_handler(None);
     });
     let d = deliveries.lock().expect("d").clone();
@@ -497,7 +503,7 @@ fn replay(args: &Args) {
         if got_pos != want {
             let sig = if got_pos.len() > want.len() && got_pos[..want.len()] == want[..] { "C18/script/extra_delivery" } else if got_pos.len() < want.len() && want[..got_pos.len()] == got_pos[..] { "C18/script/missing_delivery" } else { "C18/script/wrong_delivery" };
             pending(&mut res, sig, format!("expected {:?} got {:?}", want, got_pos), &small);
-        } else if ok != (v["result"] == json!("ok")) {
+        } else if ok != (v["result"] == json!("ok")) || err.starts_with("PANIC") {
             pending(&mut res, "C18/script/outcome", format!("expected {} ({}) got ok={} {}", v["result"], v["why"], ok, err), &small);
         }
         if got.iter().any(|d| !d.2) { res.mismatch("violation", "C18/script/payload_identity", "a delivered chunk differs from the uploaded object or its label".into(), small.clone()); }
